@@ -53,7 +53,7 @@ def main() -> int:
     ap = argparse.ArgumentParser()
     ap.add_argument('--repo', default='/repo')
     ap.add_argument('--props', default='')
-    ap.add_argument('--kinds', default='alpha,private,invert-if,flip-eq,else-return,add-else,extract-var,inline-var,to-keyword,to-positional,expand-aug,combined')
+    ap.add_argument('--kinds', default='alpha,private,invert-if,flip-eq,else-return,add-else,extract-var,inline-var,to-keyword,to-positional,expand-aug,add-logging,comp-to-loop,swap-adjacent,combined')
     ap.add_argument('--suite', action='store_true')
     a = ap.parse_args()
     props = [p for p in a.props.split(',') if p] or sorted(os.path.basename(f)[:-3].upper() for f in glob.glob(os.path.join(ROOT, 'kfv', 'rules', 'c[0-9][0-9].py')))
